@@ -101,10 +101,13 @@ E2E_REL = Fraction(1, 10**11)  # cells of the summary table are doubles
 
 
 def e2e_judge(out: Outcome, asset: str, txs: List[model.Tx], dump: Dict[str, Any]) -> None:
-    """'Gain / Loss Summary' of the asset's Tax sheet against the re-summed 'Gain / Loss Detail' rows of the same report (year
+    """'Gain / Loss Summary' of the asset's Tax sheet, and the asset's lines on the 'Summary' sheet, against the re-summed 'Gain / Loss Detail' rows of the same report (year
     and type taken from the generated row of the event, LONG / SHORT from the detail row)."""
     expected, counts = resum(asset, txs, dump["fractions"])
     compare_yearly(out, expected, dump["yearly"], "report summary vs report detail", rel=E2E_REL)
+    if not out.violations and dump.get("summary_sheet") is not None:
+        out.classes.add("e2e_summary_sheet_lines_compared")
+        compare_yearly(out, expected, dump["summary_sheet"], "'Summary' sheet vs report detail", rel=E2E_REL)
     if len({k[0] for k in expected}) >= 2 and any(n >= 2 for n in counts.values()):
         out.nontrivial = True
     if any((k[0], k[1], k[2], not k[3]) in expected for k in expected):
